@@ -18,7 +18,7 @@ from ..harness import WORK, watchdog, WatchdogTimeout, digest
 from ..monitors import StageTrace, thread_probe, in_process_pools
 
 MANIFEST = {
-    'text': 'Held on every call executed: get_next_imf_mask and mask_sift(ret_mask_freq=True) are compared with an executable specification of the masking rule (phase grid, mask subtraction before averaging, frequency ladder, three amplitude modes, scalar/array amplitudes, zero-amplitude = plain extraction) for seeded signals x mask-frequency sources {zc, if, float, list} x nphases 1..8, and the same call is repeated with nprocesses drawn from 1..8 while worker-side wrappers inject seeded 0-3 ms delays; all worker counts must give array_equal results. Evidence lists the distinct worker counts and job->worker assignment patterns actually observed; too little schedule diversity makes the run inconclusive. OS schedules are sampled, not enumerated.',
+    'text': 'Held on every call executed: get_next_imf_mask and mask_sift(ret_mask_freq=True) are compared with an executable specification of the masking rule (phase grid, mask subtraction before averaging, frequency ladder, three amplitude modes, scalar/array amplitudes, zero-amplitude = plain extraction) for seeded signals x mask-frequency sources {zc, if, float, list} x nphases 1..8, and the same call is repeated with nprocesses drawn from 1..8 while worker-side wrappers inject seeded 0-3 ms delays; all worker counts must give array_equal results. Evidence lists the distinct worker counts and job->worker assignment patterns actually observed; too little schedule diversity makes the run inconclusive. OS schedules are sampled, not enumerated. Schedules: the same deterministic calls made from 4-5 threads of one interpreter at once (thread switch every 1-10 microseconds) must reproduce the results obtained alone. A quarter of the shards run in a session that turns Deprecation/Future/UserWarnings into errors.',
     'note': 'Trusted: the public get_next_imf (C04) and frequency_transform (C09) used by the specification; numpy/scipy. Column count of mask_sift is C03\'s business; here every returned column and frequency is judged.',
     'technique': 'executable-specification monitor on the real masked sift + schedule-independence oracle with delay injection and per-process event logs',
 }
